@@ -321,9 +321,12 @@ impl TransportVisitor for VRaw {
                     menu.push((0, l, 0));
                 }
             }
+            // Up to a queue-full of transmissions in flight (one descriptor each).
             if txs.len() < 2 {
                 menu.push((1, 1, 0));
                 menu.push((1, 3, 0));
+            } else if txs.len() < NET_QS {
+                menu.push((1, 1, 0));
             }
             for j in 0..tx_held {
                 menu.push((2, j, 0));
@@ -468,8 +471,18 @@ impl TransportVisitor for VRaw {
             if dev.poll_receive() != completed.front().map(|c| c.0) {
                 viol("poll_receive", format!("poll_receive() = {:?}, reference ring front {:?}", dev.poll_receive(), completed.front().map(|c| c.0)));
             }
-            let want_can_send = txs.len() * 1 + 2 <= NET_QS;
-            let _ = want_can_send;
+            // Readiness agrees with the queue state: can_send() promises that a blocking send (a
+            // header and a payload part: two descriptors, or one with an indirect table) will not
+            // be refused for lack of room.
+            {
+                let indirect = w.dev.borrow().driver_features & F_INDIRECT != 0;
+                let free = NET_QS - txs.len();
+                let room = if indirect { free >= 1 } else { free >= 2 };
+                let cs = dev.can_send();
+                if cs != room {
+                    viol("can_send", format!("can_send() = {} with {} of {} transmit descriptors in use ({}): a send {} be accepted", cs, txs.len(), NET_QS, if indirect { "indirect descriptors" } else { "direct descriptors" }, if room { "would" } else { "would not" }));
+                }
+            }
             for e in co.borrow_mut().errors.drain(..) {
                 viol("chain-malformed", e);
             }
